@@ -1,6 +1,7 @@
 //! kvh — verification harness driving the real KyroDB engine code in-process.
 mod proto;
 mod configeng;
+mod mem;
 mod persist;
 mod qcache;
 mod ratelimit;
@@ -8,6 +9,9 @@ mod shim;
 mod store;
 mod tiered;
 mod validate;
+
+#[global_allocator]
+static GLOBAL: mem::Fence = mem::Fence;
 
 fn main() {
     let args: Vec<String> = std::env::args().collect();
@@ -19,6 +23,7 @@ fn main() {
         Some("config") => configeng::run(),
         Some("ratelimit") => ratelimit::run(),
         Some("validate") => validate::run(),
+        Some("mem") => mem::run(),
         _ => {
             eprintln!("usage: kvh <engine>");
             std::process::exit(2);
